@@ -87,6 +87,15 @@ CHECKS = {
             "Termination (exact livelock detection on the polling loops), work preservation and survivor identity over "
             "generated timer/death placements inside _resize. Exploration.",
             "SIM kernel model; livelock verdict = only pollers runnable and nothing they poll can change", "DESIGN.md §6 C10"),
+    "C14": ("SIM", "Hypothesis-generated actor programs on loky's Lock/RLock/Semaphore/BoundedSemaphore/Condition/Event over "
+                   "the simulated named-semaphore table, actors spread over simulated processes (pickled copies), timed waits "
+                   "fired anywhere by cyclic random-walk / timer-eager / PCT schedules; oracles = occupancy invariant, "
+                   "sequential reference model for misuse, Condition wake-up accounting, Event linearised along lock-release order",
+            "Contracts evaluated over generated interleavings of loky's real synchronize.py code down to the individual "
+            "semaphore operation. Exploration.",
+            "the SemLock model re-implements _multiprocessing.SemLock (semaphore.c semantics, DESIGN.md App. A); real "
+            "sem_timedwait races are modelled as 'timer fired => acquire failed'; open finding F-b (lost notify, CPython's "
+            "algorithm) is excluded by construction and replayed", "DESIGN.md §6 C14"),
 }
 
 NOT_YET = {}
